@@ -13,6 +13,7 @@
 (*              "missing" file deleted from the work tree (not staged)     *)
 (*              "edited"  the user's own bytes                             *)
 (*              "otherptr" a valid pointer for some other object           *)
+(*              "emptied"  a file of zero bytes (the user truncated it)    *)
 (* pull / checkout may only turn "pointer" and "missing" into "content"    *)
 (* (when the object is available); everything else is left byte-identical. *)
 (* fetch and pull take an include set and an exclude set of paths (-I / -X  *)
@@ -64,9 +65,10 @@ CloneB(skip) ==
      /\ Log([a |-> "clone", skip |-> skip, wt |-> bwt', store |-> {o \in Oids : bstore'[o] = "valid"}])
   /\ UNCHANGED <<commits, br, rr, rt, head, local, server, everRemote, published, bdone, bref2>>
 
+PerturbKinds == {"edited", "missing", "otherptr", "emptied"}
 Perturb(p, k) ==     \* the user touches a tracked file
   /\ cloned /\ ~bdone /\ TreeB[p] \in Oids /\ bwt[p] \in {"pointer", "content"}
-  /\ k \in {"edited", "missing", "otherptr"}
+  /\ k \in PerturbKinds
   /\ bwt' = [bwt EXCEPT ![p] = k]
   /\ UNCHANGED <<commits, br, rr, rt, head, local, server, everRemote, published, cloned, bref, bstore, bdone, bref2>>
   /\ Log([a |-> "perturb", p |-> p, kind |-> k])
@@ -111,13 +113,13 @@ CNext == \/ \E b \in Branches, p \in Paths, blob \in Blobs, g \in Ages : CCommit
          \/ Publish
          \/ \E o \in Oids : ServerLoses(o)
          \/ \E s \in BOOLEAN : CloneB(s)
-         \/ \E p \in Paths, k \in {"edited", "missing", "otherptr"} : Perturb(p, k)
+         \/ \E p \in Paths, k \in PerturbKinds : Perturb(p, k)
          \/ \E o \in Oids : DropB(o) \/ ToReference(o)
          \/ \E k \in {"fetch", "pull", "checkout"}, inc, exc \in SUBSET Paths : Cmd(k, inc, exc)
 CSpec == CInit /\ [][CNext]_cvars
 
 \* C04 on the design
-NoClobber == [][(bdone' /\ ~bdone) => \A p \in Paths : bwt[p] \in {"edited", "otherptr", "rawfile", "content"} => bwt'[p] = bwt[p]]_cvars
+NoClobber == [][(bdone' /\ ~bdone) => \A p \in Paths : bwt[p] \in {"edited", "otherptr", "emptied", "rawfile", "content"} => bwt'[p] = bwt[p]]_cvars
 OnlyValidStored == \A o \in Oids : bstore[o] = "valid" => (o \in server \/ o \in AllOids)
 
 EmitCmd == (Emit /\ bdone' /\ ~bdone) => CSVWrite("%1$s", <<ToJson(hist')>>, IOEnv.OUT)
